@@ -297,6 +297,13 @@ func roundtripPlan(sig, tier string) []Unit {
 		units = append(units, Unit{Opts: def, Mon: mon, Tag: "idwidth-in-domain", History: []Letter{big, alpha[1]}},
 			Unit{Opts: def, Mon: mon, Tag: "idwidth-in-domain", History: []Letter{alpha[0], big, alpha[2]}})
 	}
+	// more sub-items (32-bit ids: events, links, data points of each kind, their attributes and
+	// exemplars) in one batch than 16 bits can count
+	for _, k := range subItemKinds(sig) {
+		big := Letter{Sig: sig, Big: &Big{Kind: k, N: 70001}}
+		units = append(units, Unit{Opts: def, Mon: mon, Tag: "sub-items-beyond-16-bits", History: []Letter{big, alpha[1]}},
+			Unit{Opts: def, Mon: mon, Tag: "sub-items-beyond-16-bits", History: []Letter{alpha[10], big}})
+	}
 	// one key, a different value type under each parent
 	{
 		ml := mixLetters(sig, 1)
@@ -537,6 +544,16 @@ func idleGapHistories(sig string, thorough bool) [][]Letter {
 		out = append(out, h)
 	}
 	return out
+}
+
+func subItemKinds(sig string) []string {
+	switch sig {
+	case "traces":
+		return []string{"sub-events", "sub-links"}
+	case "metrics":
+		return []string{"sub-gauge", "sub-sum", "sub-hist", "sub-ehist", "sub-summary"}
+	}
+	return nil
 }
 
 // emptyRequestHistories: requests without any record (no resource at all, a
